@@ -47,6 +47,7 @@ type FuncContract struct {
 	Loops      map[int]*LoopSpec
 	CallAssert []CallAssert
 	CallAssume []CallAssert // assume@after callee#k expr
+	RetAssertK []int        // parallel to RetAssert: 0 = every return, k = only the k-th return in source order (assert@ret#k)
 	RetAssert  []Clause     // assert@ret expr: holds at every return point (locals in scope; `result`, `result0`.. name the returned values)
 	Inline     bool
 	Trusted    string
@@ -190,6 +191,11 @@ func ParseContractFile(path string) (*ContractFile, error) {
 		if i := strings.Index(kw, "["); i > 0 && strings.HasSuffix(kw, "]") {
 			rest = kw[i:] + " " + rest
 			kw = kw[:i]
+		}
+		retK := 0
+		if strings.HasPrefix(kw, "assert@ret#") {
+			retK, _ = strconv.Atoi(strings.TrimPrefix(kw, "assert@ret#"))
+			kw = "assert@ret"
 		}
 		switch kw {
 		case "default":
@@ -454,6 +460,7 @@ func ParseContractFile(path string) (*ContractFile, error) {
 					return nil, err
 				}
 				cur.RetAssert = append(cur.RetAssert, c)
+				cur.RetAssertK = append(cur.RetAssertK, retK)
 			case "assume@after":
 				f := strings.Fields(rest)
 				callee, ks, _ := strings.Cut(f[0], "#")
